@@ -81,7 +81,20 @@ async def send_case(ctx, case: dict) -> None:
     kwargs = {} if case["buffered"] is None else {"message_buffer": case["buffered"]}
     kind, exc = await stepper.tx(Message(*fields), **kwargs)
     writes = transport.take_writes()
-    ctx.case((version, state, fields, case["buffered"], case["intervening"]), sample=case)
+    loose = not isinstance(fields[5], str)
+    head = ";".join(str(f) for f in fields[:5]) + ";"
+
+    def resolve(candidates: list[str]) -> None:
+        # a payload the application gave as a number: however the codec spells it, the line is this message's
+        nonlocal line
+        if loose:
+            for w in candidates:
+                if w.startswith(head):
+                    line = w
+                    return
+
+    resolve(writes)
+    ctx.case((version, state, tuple(map(repr, fields)) if loose else fields, case["buffered"], case["intervening"]), sample=case)
     ctx.clause("send-classified")
     if kind == "error":
         if is_library_error(exc):
@@ -152,6 +165,7 @@ async def send_case(ctx, case: dict) -> None:
     wake = 32 if proto == "2.2" else 22
     await stepper.rx(f"{DEST};255;3;0;{wake};1\n")
     after = transport.take_writes()
+    resolve(after)
     ctx.clause("held-written-at-wake")
     if after.count(line) != 1:
         key = "internal-parked-forever" if fields[2] == 3 else "held-message-lost"
@@ -457,6 +471,15 @@ def cases(ctx):
                         yield {"version": version, "dest": dest, "fields": [DEST, child, cmd, ack, mtype, f"pl{mtype}"],
                                "buffered": buffered, "intervening": name}
     ctx.exhaustive["send-space"] = count
+    # payloads given the way applications have them - a number, not its text (the codec accepts them): written, held or a
+    # library error like any other message
+    for version in [None, *VERSIONS]:
+        for payload in (1, 0, 21.5, -3, 10 ** 12):
+            for (child, cmd, mtype), dest, buffered in itertools.product(((0, 1, 2), (0, 1, 0), (0, 2, 2), (255, 3, 13), (255, 3, 6)),
+                                                                         ("unknown", "awake", "sleeping"), (None, False)):
+                if ctx.mine():
+                    yield {"version": version, "dest": dest, "fields": [DEST, child, cmd, 0, mtype, payload],
+                           "buffered": buffered, "intervening": "none"}
 
 
 async def in_flight_duplicate_case(ctx, case: dict) -> None:
